@@ -225,7 +225,11 @@ def _make(name: str, cd: dict, classes: dict[str, type], placeholder: bool) -> t
         else:
             opt.append((f["py"], t, dataclasses.field(default=None)))
     ns: dict[str, Any] = {}
-    if cd["meta"] != "none":
+    if "build" in cd:  # the specification says what the inner Meta contains (Codec!MetaPairs)
+        if cd["build"]["hasmeta"]:
+            pairs = [(w, p) for w, p in cd["build"]["pairs"]]
+            ns["Meta"] = type("Meta", (), {"key_transform_with_load": {w: p for w, p in pairs}, "key_transform_with_dump": {p: w for w, p in pairs}})
+    elif cd["meta"] != "none":
         pairs = [(f["wire"], f["py"]) for f in cd["fields"] if cd["meta"] == "full" or f["wire"] != f["py"]]
         ns["Meta"] = type(
             "Meta",
@@ -233,7 +237,15 @@ def _make(name: str, cd: dict, classes: dict[str, type], placeholder: bool) -> t
             {"key_transform_with_load": {w: p for w, p in pairs}, "key_transform_with_dump": {p: w for w, p in pairs}},
         )
     # `pyname`: the class's __qualname__ (same module for all) - two table entries may share it
-    return dataclasses.make_dataclass(cd.get("pyname", name), req + opt, namespace=ns), later
+    pyname = cd.get("pyname", name)
+    if "extends" in cd:
+        # a subclass: OWN fields only (a field named like an inherited one overrides it), keyword-only so that a
+        # required field may follow inherited defaults; optionally a field-less mixin among the bases
+        bases: tuple = (classes[cd["extends"]],)
+        if cd.get("mixin"):
+            bases = (type("Mixin", (), {"describe": lambda self: type(self).__name__}),) + bases
+        return dataclasses.make_dataclass(pyname, req + opt, bases=bases, namespace=ns, kw_only=True), later
+    return dataclasses.make_dataclass(pyname, req + opt, namespace=ns), later
 
 
 def build_classes(table: dict) -> dict[str, type]:
@@ -246,7 +258,7 @@ def build_classes(table: dict) -> dict[str, type]:
     while pending:
         progressed = False
         for name, cd in list(pending.items()):
-            deps = set()
+            deps = {cd["extends"]} if "extends" in cd else set()
             for f in cd["fields"]:
                 deps |= class_refs(f["ty"])
             if deps - set(classes):
